@@ -400,6 +400,15 @@ impl Prop for C05 {
             .map(|&i| {
                 let rs = seed::run_seed(ctx.base_seed ^ 0xC05, i);
                 let mut s = if i % 3 == 2 { pipeline::generate_api(rs, 12) } else { pipeline::generate_with(rs, 12) };
+                // a fifth of the library-API runs also push one or two contigs WITHOUT bases (size 0
+                // like a sync token, but a contig): own stream
+                if let Some(api) = s.api.as_mut() {
+                    let mut re = seed::Rng::new(rs ^ 0xE3B7);
+                    if re.pct(20) {
+                        let total: u32 = crate::gen::genome::generate(&s.gen).samples.iter().map(|x| x.contigs.len() as u32).sum();
+                        api.empty_contigs_before = (0..re.range(1, 2)).map(|_| re.below(total as u64) as u32).collect();
+                    }
+                }
                 // thorough tier: a fifth of the runs with 9..16 workers
                 if ctx.tier == Tier::Thorough && i % 5 == 0 {
                     s.cfg.threads = 9 + (rs % 8) as u32;
